@@ -689,8 +689,10 @@ fn predicate(c: &Case) -> Result<Option<String>, String> {
     let mut with = c.text.to_vec();
     with.insert(c.pos, c.cp);
     let out = shape(c.face, &with, Some(c.dir), c.flags, c.level).map_err(|e| format!("panic:{}", e))?;
-    if base.len() < c.text.len() {
-        return Err(format!("base-length {}<{}", base.len(), c.text.len()));
+    // the text itself may contain ignorables (removed from the base result on a font without a space glyph or under REMOVE)
+    let ign_in_text = c.text.iter().filter(|t| char::from_u32(**t).map(hook::is_default_ignorable).unwrap_or(false)).count();
+    if base.len() + ign_in_text < c.text.len() {
+        return Err(format!("base-length {}<{}", base.len() + ign_in_text, c.text.len()));
     }
     predicate_on(c, &base, &with, &out, false)?;
     Ok(predicate_on(c, &base, &with, &out, true).err())
@@ -853,7 +855,12 @@ fn search(args: &[String]) {
     for cp in &cps {
         let mut reported = 0;
         for _ in 0..per {
-            let text = rand_text(&mut r, &letters, 4);
+            let mut text = rand_text(&mut r, &letters, 4);
+            // every sixth text already begins with an ignorable (decided without drawing from the random stream): runs of
+            // two leading / adjacent ignorables, each a cluster of its own
+            if (text.len() + *cp as usize) % 6 == 0 {
+                text.insert(0, [0xADu32, 0x200B, 0x2060][*cp as usize % 3]);
+            }
             for pos in 0..=text.len() {
                 for (fi, font) in fonts.iter().enumerate() {
                     for flags in [0u32, 4, 8] {
